@@ -937,6 +937,9 @@ class LoopToComprehension:
         i = 0
         while i < len(out):
             st = out[i]
+            if isinstance(st, ast.AnnAssign) and isinstance(st.target, ast.Name) and st.simple and st.value is not None:
+                # the annotation of a local is neither evaluated nor stored
+                st = ast.copy_location(ast.Assign(targets=[st.target], value=st.value), st)
             if isinstance(st, ast.Assign) and len(st.targets) == 1 and isinstance(st.targets[0], ast.Name) \
                     and isinstance(st.value, ast.List) and not st.value.elts:
                 name = st.targets[0].id
